@@ -5,7 +5,7 @@ CONSTANTS
   RPCs <- Two
   CScript <- G_early
   SScript <- GS_early
-  Faults <- AllFaults
+  Faults <- AllFaults4
   MaxFaults = 1
   Stepped = TRUE
   Dir = "rev"
